@@ -100,6 +100,16 @@ def r1_sql_scoping(ctx):
                                 "SELECT of a whole log has no ORDER BY %s: records may come back out of append order — %s" % (PK, st.describe()),
                                 work=len(st.clauses))
                     continue
+                # every ORDER BY text of the statement (the builder may choose between an ASC
+                # and a DESC one) must have event_id as its FIRST key: append order is the order
+                # of the commit tree, any other leading key (created_at ..) reorders records whose
+                # timestamps are not monotone
+                lead_bad = [t_ for t_ in st.texts("order_by") if t_.strip() and not re.match(r"\s*%s\b" % PK, t_.strip())]
+                if lead_bad:
+                    r.violation(key + "|order-key", st.where(),
+                                "a whole-log SELECT is ordered by `%s`: the first sort key is not %s, so streams, diffs and rewind follow another order than the commit tree (which load_commits builds in %s order)" % (lead_bad[0].strip(), PK, PK),
+                                work=len(st.clauses))
+                    continue
             if st.kind == "Select" and re.search(r"::(load_commits|load_events)$", fn.root):
                 ob = " ".join(st.texts("order_by")).upper()
                 if "DESC" in ob or "ASC" not in ob:
